@@ -402,6 +402,18 @@ def s_block_diag(*arrs):
     return scipy.linalg.block_diag(*arrs)
 
 
+def s_delete(arr, idx, axis=None):
+    if isinstance(arr, np.ndarray) and arr.dtype == object:
+        return np.array([e for k, e in enumerate(arr.ravel()) if k not in set(np.atleast_1d(idx).tolist())], dtype=object) \
+            if (axis is None and arr.ndim == 1) else np.delete(arr, idx, axis)
+    return np.delete(arr, idx, axis)
+
+
+def s_fill_diagonal(a, val, wrap=False):
+    for i in range(min(a.shape)):
+        a[i, i] = val
+
+
 def s_linear_sum_assignment(cost, maximize=False):
     """scipy.optimize.linear_sum_assignment by contract: returns a complete one-to-one assignment (row indices ascending)
     whose total is optimal among ALL complete one-to-one assignments of the matrix it was given.  Which optimal
@@ -562,6 +574,7 @@ for _r, _s in [
     (scipy.linalg.inv, s_inv), (np.linalg.inv, s_inv), (np.outer, s_outer), (np.trace, s_trace),
     (np.diagflat, s_diagflat), (np.diag, s_diag), (scipy.linalg.block_diag, s_block_diag),
     (__import__("scipy.optimize", fromlist=["x"]).linear_sum_assignment, s_linear_sum_assignment),
+    (np.delete, s_delete), (np.fill_diagonal, s_fill_diagonal),
     (math.floor, m_floor), (math.sin, _m1("sin", sym.fn_sin)), (math.cos, _m1("cos", sym.fn_cos)),
     (math.sqrt, _m1("sqrt", sym.fn_sqrt)), (math.asin, _m1("asin", sym.fn_arcsin)), (math.acos, _m1("acos", sym.fn_arccos)),
     (math.atan, _m1("atan", sym.fn_arctan)), (math.fabs, _m1("fabs", abs)), (math.exp, _m1("exp", sym.fn_exp)),
